@@ -365,10 +365,9 @@ pub fn run_req(w: &World, case: &Value, out: &mut dyn Write) {
     let mut obs_j = obs_j;
     obs_j["xcheck"] = json!({"pairs": xpairs});
     let coq = format!(
-        "(CReq {} {} {} {} {} (mkReq {} {} {}) {})",
+        "(CReq {} {} {} {} (mkReq {} {} {}) {})",
         g_spec(&info.path_spec),
         g_spec(&info.query_spec),
-        g_bool(info.opt_ref_resp),
         g_docop(op),
         g_comps(op, &w.comps),
         format!("[{}]", g_sent.join(";")),
@@ -398,7 +397,7 @@ pub fn run_doc(w: &World, case: &Value, out: &mut dyn Write) {
     let op = w.find(method, path);
     let info = w.info(op);
     let coq = format!(
-        "(CDoc {} {} {} {} {} {} {} {} {} {})",
+        "(CDoc {} {} {} {} {} {} {} {} {} {} {})",
         g_spec(&info.path_spec),
         g_spec(&info.query_spec),
         g_str(&format!("{}Path", op.op_id)),
@@ -407,6 +406,7 @@ pub fn run_doc(w: &World, case: &Value, out: &mut dyn Write) {
         g_list(&info.hdrs, |h| g_str(h)),
         g_bool(!info.custom_error),
         g_opt(&info.body, |b| b.to_string()),
+        g_opt(&info.opt_ref_resp, |n| g_str(&format!("{}{}", doc::SCHEMA_PREFIX, n))),
         g_docop(op),
         g_comps(op, &w.comps)
     );
